@@ -46,7 +46,13 @@ def obligations(tier):
                 obs.append(Ob(f"area_{a}_{sel}{i}", "E1", "h_area", {"area": a, "fix": {sel: i}}, 1200, f"grammar area {a}, selector {sel} fixed to option {i}: real bytes == reference bytes", weight=100))
         else:
             obs.append(Ob(f"area_{a}", "E1", "h_area", {"area": a}, 1200, f"grammar area {a}: real bytes == reference bytes for all leaves/selectors in the bounds", weight=100))
+    if tier == "quick":
+        obs = [o for o in obs if o.name not in HEAVY]
     return obs
+
+
+# more than ~2.5 CPU-minutes each on the unchanged tree (measured): thorough tier only
+HEAVY = {"area_manifest_a_members3", "area_common_members3", "area_component_id_part00", "area_textmap_entries0", "area_encrypt_calg1", "area_encrypt_calg2"}
 
 
 # areas whose path product exceeds the budget are split on their top selector (the union of the parts is the stated bound)
